@@ -166,6 +166,12 @@ func genCase(r *hx.Rand, layer string, opt genOpt, thorough bool) In {
 		a := r.Pick(accepts)
 		if r.Chance(1, 5) {
 			a = r.Pick([]string{"text/event-stream", "text/html, text/event-stream", "TEXT/EVENT-STREAM"})
+			if r.Chance(1, 2) { // the event-stream type anywhere in a list, near misses (stream c17.accept has the grammar)
+				a = genAcceptList(r)
+				if !validValue(a) {
+					a = "text/html,text/event-stream"
+				}
+			}
 		}
 		in.Req = append(in.Req, [2]string{r.Pick([]string{"Accept", "accept"}), a})
 	}
@@ -431,6 +437,10 @@ func init() {
 				for n := r.Range(1, 5); n > 0; n-- {
 					in.Ops = append(in.Ops, Op{Op: "w", Seed: r.U64() % 1000, Len: r.Range(0, 20000), Kind: r.Intn(2)})
 				}
+				if r.Chance(1, 5) { // this handler's first client goes away
+					g := []int{0, 5, 10, 11, r.Intn(200), r.Intn(20000)}[r.Intn(6)]
+					in.Gone = &g
+				}
 				p.Reqs = append(p.Reqs, in)
 			}
 			return p
@@ -452,7 +462,14 @@ func init() {
 				go func(k int) {
 					defer wg.Done()
 					<-start
-					o, err := hx.SafeRun(func() (interface{}, error) { return runCase(&p.Reqs[k]) })
+					o, err := hx.SafeRun(func() (interface{}, error) {
+						if g := p.Reqs[k].Gone; g != nil && *g >= 0 {
+							if err := serveGone(&p.Reqs[k], *g, k%2 == 0); err != nil {
+								return nil, err
+							}
+						}
+						return runCase(&p.Reqs[k])
+					})
 					if err != nil {
 						errs[k] = err
 						return
